@@ -35,16 +35,30 @@ const (
 	hwCollide        // maps with digest tables: inline and EXTERNAL collision groups
 	hwNested         // a parent array holding inlined arrays / maps (with large values and external collision groups inside), wrappers around references and around children
 	hwEmpty          // no slab at all
-	hwKinds
+	hwKinds          // the kinds the seeded rotation goes through
+	// directed kinds, built on every run whatever the seed
+	hwSingle = hwKinds // containers holding exactly ONE element: every traversal level is one child storable
 )
 
-var hwNames = [...]string{"arrays", "maps", "collide", "nested", "empty"}
+var hwNames = [...]string{"arrays", "maps", "collide", "nested", "empty", "single"}
+
+// hwCont: what is needed to obtain a handle to a top-level container of a world again (by root
+// identifier, on another storage over the same ledger) and to address one of its elements.
+type hwCont struct {
+	root    atree.SlabID
+	isMap   bool
+	builder atree.DigesterBuilder
+	keys    []hx.TV // maps: the keys set, in insertion order
+	n       int     // arrays: number of elements
+	plain   bool    // every element is a plain value (large ones in their own slab): an overwritten element is disposed of by one Remove
+}
 
 type healthWorld struct {
 	ledger *hx.Ledger
 	ps     *atree.PersistentSlabStorage
 	kind   int
 	roots  []atree.SlabID // the root slabs of the top-level containers, known from construction
+	conts  []hwCont
 }
 
 func hcMust(err error) {
@@ -70,6 +84,8 @@ func buildWorld(seed int64, kind int, committed bool) *healthWorld {
 	case hwNested:
 		buildNested(rng, w)
 	case hwEmpty:
+	case hwSingle:
+		buildSingle(rng, w)
 	}
 	if committed {
 		hcMust(w.ps.FastCommit(2))
@@ -99,6 +115,7 @@ func buildArrays(rng *rand.Rand, w *healthWorld) {
 			hcMust(a.Append(hx.TV{Size: size, Pay: uint64(1000*k + i)}))
 		}
 		w.roots = append(w.roots, a.SlabID())
+		w.conts = append(w.conts, hwCont{root: a.SlabID(), n: n, plain: true})
 	}
 }
 
@@ -126,6 +143,10 @@ func buildMaps(rng *rand.Rand, w *healthWorld, collide bool) {
 		if k == 0 {
 			n = 60 + rng.Intn(140)
 		}
+		c := hwCont{root: m.SlabID(), isMap: true, plain: true}
+		if collide {
+			c.builder = b // (the default builder is seeded per map: a handle opened later gets a new one)
+		}
 		for i := 0; i < n; i++ {
 			key := hx.TV{Size: uint32(9 + rng.Intn(8)), Pay: uint64(100000*k + i + 1)}
 			if !collide && rng.Intn(15) == 0 {
@@ -137,8 +158,10 @@ func buildMaps(rng *rand.Rand, w *healthWorld, collide bool) {
 			}
 			_, err := m.Set(hx.CompareKey, hx.HashInput, key, hx.TV{Size: size, Pay: uint64(7000000 + 1000*k + i)})
 			hcMust(err)
+			c.keys = append(c.keys, key)
 		}
 		w.roots = append(w.roots, m.SlabID())
+		w.conts = append(w.conts, c)
 	}
 }
 
@@ -237,6 +260,73 @@ func buildNested(rng *rand.Rand, w *healthWorld) {
 				hcMust(err)
 			}
 			w.roots = append(w.roots, parent.SlabID())
+		}
+	}
+}
+
+// buildSingle: top-level containers that hold exactly ONE element, of every shape, so that the
+// level-by-level ChildStorables traversals (CheckStorageHealth, SlabIterator,
+// getAllChildReferences) meet levels that consist of a single child storable - a reference, a
+// wrapper, an inlined container - at the first level and further down.  The set of shapes does
+// not depend on the seed (only sizes and payloads do).
+func buildSingle(rng *rand.Rand, w *healthWorld) {
+	pay := uint64(0)
+	next := func() uint64 { pay++; return pay }
+	large := func() hx.TV { return hx.TV{Size: 130 + uint32(rng.Intn(40)), Pay: next()} }
+	small := func() hx.TV { return hx.TV{Size: uint32(3 + rng.Intn(12)), Pay: next()} }
+	arrayOf := func(addr atree.Address, ti uint64, vs ...atree.Value) *atree.Array {
+		a, err := atree.NewArray(w.ps, addr, hx.TI(ti))
+		hcMust(err)
+		for _, v := range vs {
+			hcMust(a.Append(v))
+		}
+		return a
+	}
+	mapOf := func(addr atree.Address, ti uint64, v atree.Value) *atree.OrderedMap {
+		m, err := atree.NewMap(w.ps, addr, atree.NewDefaultDigesterBuilder(), hx.TI(ti))
+		hcMust(err)
+		_, err = m.Set(hx.CompareKey, hx.HashInput, hx.TV{Size: 9, Pay: next()}, v)
+		hcMust(err)
+		return m
+	}
+	for shape := 0; shape < 9; shape++ {
+		addr := hx.MkAddr(uint64(1 + shape%2))
+		var v atree.Value
+		switch shape {
+		case 0: // [ref]: the root's only child storable is a reference to a large-value slab
+			v = large()
+		case 1: // [W(ref)]
+			v = hx.SomeValue{V: large()}
+		case 2: // [W(W(ref))]
+			v = hx.SomeValue{V: hx.SomeValue{V: large()}}
+		case 3: // [[[ref]]]: inlined arrays of one element each, three levels of one storable
+			v = arrayOf(addr, 21, arrayOf(addr, 22, large()))
+		case 4: // [{k: ref}] inlined map
+			v = mapOf(addr, 31, large())
+		case 5: // [W([W(ref)])]
+			v = hx.SomeValue{V: arrayOf(addr, 23, hx.SomeValue{V: large()})}
+		case 6: // [ref to a standalone child array]: the child is too large to be inlined and holds one reference among plain values
+			vs := []atree.Value{}
+			for i, n := 0, 14+rng.Intn(6); i < n; i++ {
+				vs = append(vs, small())
+			}
+			vs = append(vs, large())
+			v = arrayOf(addr, 24, vs...)
+		case 7: // [plain]: a leaf root
+			v = small()
+		default: // [[ref to a standalone child array [ref]]]: a chain of single references
+			vs := []atree.Value{arrayOf(addr, 26, large())}
+			for i, n := 0, 16+rng.Intn(6); i < n; i++ {
+				vs = append(vs, small())
+			}
+			v = arrayOf(addr, 25, arrayOf(addr, 27, vs...))
+		}
+		if shape%3 == 2 {
+			m := mapOf(addr, 8, v)
+			w.roots = append(w.roots, m.SlabID())
+		} else {
+			a := arrayOf(addr, 7, v)
+			w.roots = append(w.roots, a.SlabID())
 		}
 	}
 }
@@ -429,10 +519,19 @@ func healthStream(cfg *Config) *hx.Stats {
 		st.Ops++
 		st.Hit("refs:" + strings.SplitN(label, "@", 2)[0])
 	}
+	type worldSpec struct {
+		seed      int64
+		kind      int
+		committed bool
+	}
+	var specs []worldSpec
 	for p := 0; p < nWorlds; p++ {
-		seed := cfg.Seed*1000 + int64(p)
-		kind := p % hwKinds
-		committed := (p/hwKinds)%2 == 1
+		specs = append(specs, worldSpec{cfg.Seed*1000 + int64(p), p % hwKinds, (p/hwKinds)%2 == 1})
+	}
+	// directed worlds, on every run: single-element containers, uncommitted and committed
+	specs = append(specs, worldSpec{cfg.Seed*1000 + 900, hwSingle, false}, worldSpec{cfg.Seed*1000 + 901, hwSingle, true})
+	for p, spec := range specs {
+		seed, kind, committed := spec.seed, spec.kind, spec.committed
 		build := func() *healthWorld { return buildWorld(seed, kind, committed) }
 		hw := build()
 		st.Programs++
